@@ -205,6 +205,7 @@ func graph(path string) {
 	names := append(append([]string{}, g.Cb...), g.Ch...)
 	hangs := []map[string]interface{}{}
 	notifies, takes, cbs := 0, 0, 0
+	drifts, hard := 0, 0
 	for pi, p := range g.Paths {
 		q := &waiter.Queue{}
 		ents := map[string]*ent{}
@@ -236,10 +237,17 @@ func graph(path string) {
 		}
 		bad := false
 		mm := func(si int, kind, what string, want, got interface{}) {
-			res.Mismatches = append(res.Mismatches, vh.Mismatch{Path: pi, Step: si, Kind: kind, What: what, Want: want, Got: got})
-			if kind != "drift" {
+			if kind == "drift" {
+				// I-level differences are recorded (a few), never stop the replay
+				drifts++
+				if drifts > 12 {
+					return
+				}
+			} else {
 				bad = true
+				hard++
 			}
+			res.Mismatches = append(res.Mismatches, vh.Mismatch{Path: pi, Step: si, Kind: kind, What: what, Want: want, Got: got})
 		}
 		for si, st := range p {
 			res.Steps++
@@ -329,11 +337,12 @@ func graph(path string) {
 			}
 		}
 		res.Paths++
-		if len(res.Mismatches) > 40 {
+		if hard > 24 {
 			break
 		}
 	}
 	res.Extra["hangs"] = hangs
+	res.Extra["drifts"] = drifts
 	res.Extra["notifies"] = notifies
 	res.Extra["takes"] = takes
 	res.Extra["callbacks"] = cbs
@@ -445,7 +454,11 @@ func race(out string, seed int64, hists, Gmax, K int) {
 					g = v.(int)
 				}
 				tr.Log(map[string]interface{}{"ev": "cb", "e": x.name, "g": g})
-				atomic.AddInt64(&cbCount, 1)
+				if atomic.AddInt64(&cbCount, 1) > int64(Gmax*K*len(names)+8) {
+					// more callbacks than all Notify calls of the history can owe: the walk does not
+					// terminate (the log already contains the surplus callbacks); unwind it
+					panic(abortWalk{x.name})
+				}
 				switch yield {
 				case 1:
 					runtime.Gosched()
@@ -497,6 +510,10 @@ func race(out string, seed int64, hists, Gmax, K int) {
 				defer func() {
 					if rec := recover(); rec != nil {
 						atomic.StoreInt32(&panicked, 1)
+						if _, ok := rec.(abortWalk); ok {
+							tr.Log(map[string]interface{}{"ev": "overrun", "g": g})
+							return
+						}
 						tr.Log(map[string]interface{}{"ev": "panic", "g": g, "msg": fmt.Sprint(rec), "stack": shortStack(string(debug.Stack()))})
 					}
 				}()
@@ -549,7 +566,7 @@ func race(out string, seed int64, hists, Gmax, K int) {
 		// wait for the history; a quiescent deadlock (every unfinished worker parked in a
 		// blocking primitive, no log progress) ends the run with a `hang` event
 		tick := time.NewTimer(200 * time.Millisecond)
-		still, lastN := 0, int64(-1)
+		still, noprog, lastN := 0, 0, int64(-1)
 	wait:
 		for {
 			select {
@@ -578,7 +595,22 @@ func race(out string, seed int64, hists, Gmax, K int) {
 				} else {
 					still = 0
 				}
+				if n == lastN {
+					noprog++
+				} else {
+					noprog = 0
+				}
 				lastN = n
+				if noprog >= 400 && still < 5 {
+					// ~20 s without a single log line, workers neither finished nor parked: busy
+					// (e.g. walking a cyclic list that contains no callback entry)
+					tr.Log(map[string]interface{}{"ev": "hang", "states": states, "spinning": true, "in_waiter_code": false, "stacks": []string{}})
+					sum["stopped"] = "spinning"
+					sum["histories"] = h + 1
+					tr.Close()
+					vh.Emit(sum)
+					os.Exit(0)
+				}
 				if still >= 5 {
 					inw := false
 					for _, s := range stacks {
